@@ -123,7 +123,7 @@ def range_count(S):
 
 
 # ---------------------------------------------------------------------------
-def async_assembly_model(ctx, repo):
+def async_assembly_model(ctx, repo, observe="block"):
     """GeckoAsyncStructure.get on a model connection (witness scenarios): the structure is built by its constructor,
     every attempt's request is a stand-in whose wait_for_response delivers a scripted list of (sequence, next, data)
     segments and then times out.  What is installed must be the spa's bytes for the requested range, or nothing."""
@@ -172,9 +172,18 @@ def async_assembly_model(ctx, repo):
             return req
         proto = Obj(None, {"Lock": Obj(None, name="lock"), "queue_send": Native(lambda a_, k_: sends.append(a_[0]), "queue_send")}, name="protocol")
 
+        try:
+            before_blk = bytes(interp.getattr(st, "status_block"))
+        except (PyRaise, Undecided, TypeError):
+            before_blk = None
+        if before_blk is None:
+            observe = "calls"
+
         def hook(it, node, callee, args, kwargs):
             fn = getattr(node, "func", None)
-            if isinstance(fn, ast.Attribute) and fn.attr == "replace_status_block_segment" and isinstance(fn.value, ast.Name) and fn.value.id == "self":
+            # observe="calls": what is handed to the notifying install function (C03: one update = one notification round);
+            # observe="block": the block before and after (C01: the client's copy, whichever way it is stored)
+            if observe == "calls" and isinstance(fn, ast.Attribute) and fn.attr == "replace_status_block_segment" and isinstance(fn.value, ast.Name) and fn.value.id == "self":
                 installs.append((args[0], bytes(args[1]) if isinstance(args[1], (bytes, bytearray)) else args[1]))
                 return None
             if isinstance(fn, (ast.Name, ast.Attribute)) and (getattr(fn, "id", None) == "config_sleep" or getattr(fn, "attr", None) in ("config_sleep", "sleep")):
@@ -192,8 +201,20 @@ def async_assembly_model(ctx, repo):
                        f"{fi.qual} given {what} with a budget of {budget} does not finish: {len(sends)} transmissions and still going - the number of attempts is not bounded by the retry budget", fi.loc)
                 continue
             raise AnalysisError(f"{fi.qual}: cannot interpret: {e}")
-        ok = (res is want_ok) and len(sends) == want_sends and all(s is made[i] for i, s in enumerate(sends)) and \
-            (installs == ([(start, want_data)] if want_ok else []))
+        if observe == "block":
+            try:
+                after_blk = bytes(interp.getattr(st, "status_block"))
+            except (PyRaise, Undecided, TypeError) as e:
+                raise AnalysisError(f"{fi.qual}: the block after the transfer cannot be read: {e}")
+            if after_blk != before_blk:
+                lo = next(i for i in range(min(len(after_blk), len(before_blk))) if after_blk[i] != before_blk[i]) if len(after_blk) == len(before_blk) else 0
+                hi = max(i for i in range(len(after_blk)) if i >= len(before_blk) or after_blk[i] != before_blk[i]) + 1 if len(after_blk) == len(before_blk) else len(after_blk)
+                installs.append((lo, after_blk[lo:hi]) if len(after_blk) == len(before_blk) else ("length", len(after_blk)))
+            want_blk = (before_blk[:start] + want_data + before_blk[start + len(want_data):]) if want_ok else before_blk
+            ok_inst = after_blk == want_blk
+        else:
+            ok_inst = installs == ([(start, want_data)] if want_ok else [])
+        ok = (res is want_ok) and len(sends) == want_sends and all(s is made[i] for i, s in enumerate(sends)) and ok_inst
         shown = [(o, (len(d), d[:1] + b".." + d[-1:]) if isinstance(d, bytes) else d) for o, d in installs]
         ctx.ob("R3", f"{fi.qual}::model::{key}", ok,
                f"{fi.qual} given {what}: returns {res!r} after {len(sends)} transmission(s) and installs {shown}; expected {want_ok} after {want_sends} transmission(s), installing "
@@ -201,8 +222,8 @@ def async_assembly_model(ctx, repo):
                fi.loc, sample={"rule": "R3", "scenario": key, "result": str(res), "sends": len(sends), "installed": [str(x) for x in shown]})
 
 
-def async_assembly(ctx, repo):
-    async_assembly_model(ctx, repo)
+def async_assembly(ctx, repo, observe="block"):
+    async_assembly_model(ctx, repo, observe)
     from .c06 import operation_body as _ob1
     fi = _ob1(repo, repo.own_method("GeckoAsyncStructure", "get"))     # a wrapper without loops stands for the helper that has them
     g = cfg_of(fi)
